@@ -12,6 +12,22 @@ from harness import main, Part, pmap, SAN_ENV, VERIF
 from p11client import Exec, Died, Hang, mkconf
 from ck import CK
 import keys_c17 as K
+import functools
+@functools.lru_cache(None)
+def zero_secret_peers():
+    """peer public values whose shared secret with the golden private keys starts with a zero byte (1 exchange in 256): smallest k with peer = g^k resp. k*G (searched here, ~256 multiplications)"""
+    import refcrypt as RC
+    R = K.RAW; out = {}
+    p = int(R['dh1024']['CKA_PRIME'], 16); g = int(R['dh1024']['CKA_BASE'], 16); Y = int(R['dh1024']['CKA_VALUE'], 16); n = (p.bit_length() + 7) // 8; Z = Y
+    for k in range(2, 1 << 16):
+        Z = Z * Y % p
+        if Z.to_bytes(n, 'big')[0] == 0: out['dh1024'] = '%x' % pow(g, k, p); out['dh1024'] = '0' * (len(out['dh1024']) % 2) + out['dh1024']; break
+    for cv, name in (('ec_p256', 'P-256'), ('ec_p384', 'P-384')):
+        c = RC.CURVES[name]; d = int(R[cv]['CKA_VALUE'], 16); Q = RC.ECKey(c, d).Q; P = Q
+        for k in range(2, 1 << 16):
+            P = c.mul(2, Q) if k == 2 else c.add(P, Q)
+            if P[0].to_bytes(c.flen, 'big')[0] == 0: out[cv] = RC.ECKey(c, k).point().hex(); break
+    return out
 
 CONFIGS = [('asan', 'file'), ('asan', 'db'), ('botan', 'file'), ('botan', 'db')]
 NAMES = ['openssl/file', 'openssl/db', 'botan/file', 'botan/db']
@@ -650,8 +666,17 @@ class Prog(Prog):
                                 rs = s.step('C_DeriveKey', what + ('' if vl is None or vl <= 66 - 18 * (cv != 'ec_p521') - 16 * (cv == 'ec_p256') else ':value-len-above-field-size'), s=s.S, mech=s.M('CKM_ECDH1_DERIVE', p), key=G(cv + ':priv'), tmpl=s.T(t))
                                 if rs[0]['rvname'] == 'CKR_OK': o = s.add(rs, 'generic32'); s.read_attrs(o['pos'], 'generic', ['CKA_VALUE', 'CKA_VALUE_LEN'], producer='C_DeriveKey')
                         add(f'ecdh {cv} raw={raw} shared={shared is not None} kdf={kdf}', f)
-        y = R['dh1024b']['CKA_VALUE']
-        for lab, pv in (('', y), (':leading-zero', '00' + y), (':truncated', y[:-2]), (':one', '01'), (':zero', '00'), (':equals-p', R['dh1024']['CKA_PRIME']), (':empty', '')):
+        for cv in ('ec_p256', 'ec_p384'):
+            for raw in (False, True):
+                def f(cv=cv, raw=raw):
+                    pt = zero_secret_peers()[cv]; pt = pt if raw else ('04%02x' % (len(pt) // 2)) + pt
+                    for vl in (None, 16):
+                        t = s.SECRET_T + [('CKA_KEY_TYPE', 'CKK_GENERIC_SECRET')] + ([('CKA_VALUE_LEN', vl)] if vl is not None else [])
+                        rs = s.step('C_DeriveKey', 'CKM_ECDH1_DERIVE:secret-with-leading-zero-byte' + (':raw-point' if raw else ''), s=s.S, mech=s.M('CKM_ECDH1_DERIVE', {'ecdh1': dict(kdf=1, public=pt)}), key=G(cv + ':priv'), tmpl=s.T(t))
+                        if rs[0]['rvname'] == 'CKR_OK': o = s.add(rs, 'generic32'); s.read_attrs(o['pos'], 'generic', ['CKA_VALUE', 'CKA_VALUE_LEN'], producer='C_DeriveKey')
+                add(f'ecdh {cv} raw={raw} secret with a leading zero byte', f)
+        y = R['dh1024b']['CKA_VALUE']; lz = zero_secret_peers()
+        for lab, pv in (('', y), (':secret-with-leading-zero-byte', lz['dh1024']), (':leading-zero', '00' + y), (':truncated', y[:-2]), (':one', '01'), (':zero', '00'), (':equals-p', R['dh1024']['CKA_PRIME']), (':empty', '')):
             def f(lab=lab, pv=pv):
                 for vl in (None, 16, 128, 129):
                     t = s.SECRET_T + [('CKA_KEY_TYPE', 'CKK_GENERIC_SECRET')] + ([('CKA_VALUE_LEN', vl)] if vl is not None else [])
@@ -844,11 +869,70 @@ def worker(job):
     for dn in job.get('directed', []): run_program(env, job['sweep_seed'], part, directed=dn)
     return part
 
+# ---- the same program over TWO processes sharing the token, on the four configurations
+MP_SO = b'so-pin-c20mp'; MP_US = b'user-pin-c20mp'
+def mp_transcript(ctx, cfg, backend, seed, nsteps):
+    """a seeded program of two processes on one token (create / destroy-newest / destroy-any / set CKA_ID / look = search everything and read every object through fresh handles);
+    -> the transcript [(step, process, return code, what the process sees)], which must not depend on the configuration"""
+    ck = ctx.ck; rnd = random.Random(seed); d = ctx.dir(f'c20-mp-{cfg}-{backend}-{seed}'); X = []; tr = []
+    try:
+        x = ctx.new_exec(cfg, d, backend); X.append(x); assert x.call('C_Initialize', locking='os')['rv'] == 0
+        slot = x.call('C_GetSlotList', count=8)['slots'][-1]; assert x.call('C_InitToken', slot=slot, pin=MP_SO.hex(), label=b'c20mp'.hex())['rv'] == 0
+        s = x.call('C_OpenSession', slot=slot)['h']; assert x.call('C_Login', s=s, user=0, pin=MP_SO.hex())['rv'] == 0 and x.call('C_InitPIN', s=s, pin=MP_US.hex())['rv'] == 0 and x.call('C_Logout', s=s)['rv'] == 0
+        assert x.call('C_Login', s=s, user=1, pin=MP_US.hex())['rv'] == 0; S = [s]
+        y = ctx.new_exec(cfg, d, backend, reuse_dir=True); X.append(y); assert y.call('C_Initialize', locking='os')['rv'] == 0
+        sl = [q for q in y.call('C_GetSlotList', count=8)['slots'] if y.call('C_GetTokenInfo', slot=q)['flags'] & ck.CKF_TOKEN_INITIALIZED][0]
+        s = y.call('C_OpenSession', slot=sl)['h']; assert y.call('C_Login', s=s, user=1, pin=MP_US.hex())['rv'] == 0; S.append(s)
+        alive = []; n = 0
+        def look(p):
+            seen = []
+            for h in X[p].findall(S[p], {})[1]:
+                rvn, v = X[p].getattrs(S[p], h, ['CKA_LABEL', 'CKA_ID', 'CKA_VALUE', 'CKA_PRIVATE'])
+                seen.append((rvn,) + tuple((v.get(a) or b'').hex() for a in ('CKA_LABEL', 'CKA_ID', 'CKA_VALUE', 'CKA_PRIVATE')))
+            return sorted(seen)
+        for step in range(nsteps):
+            p = rnd.randrange(2); op = rnd.choice(['create', 'create', 'destroy-newest', 'destroy-newest', 'destroy-any', 'set', 'look'])
+            if op == 'create' or not alive:
+                n += 1; lab = b'obj-%d' % n; op = 'create'
+                r = X[p].call('C_CreateObject', s=S[p], tmpl=X[p].T({'CKA_CLASS': ck.CKO_SECRET_KEY, 'CKA_KEY_TYPE': ck.CKK_GENERIC_SECRET, 'CKA_TOKEN': True, 'CKA_PRIVATE': bool(n % 3), 'CKA_LABEL': lab, 'CKA_ID': b'id-%d' % n,
+                                                                 'CKA_VALUE': b'value-of-%d-' % n + bytes([65 + n % 26]) * 12, 'CKA_SENSITIVE': False, 'CKA_EXTRACTABLE': True}))
+                if r['rv'] == 0: alive.append(lab)
+                tr.append((step, p, op, r['rvname']))
+            elif op == 'look': tr.append((step, p, op, look(p)))
+            else:
+                lab = alive[-1] if op == 'destroy-newest' else rnd.choice(alive); hs = X[p].findall(S[p], {'CKA_LABEL': lab})[1]
+                if len(hs) != 1: tr.append((step, p, op, 'found-%d' % len(hs)))
+                elif op == 'set': tr.append((step, p, op, X[p].call('C_SetAttributeValue', s=S[p], o=hs[0], tmpl=X[p].T({'CKA_ID': b'id-set-at-%d' % step}))['rvname']))
+                else:
+                    r = X[p].call('C_DestroyObject', s=S[p], o=hs[0]); tr.append((step, p, op, r['rvname']))
+                    if r['rv'] == 0: alive.remove(lab)
+            if op != 'look' and rnd.random() < 0.7: tr.append((step, 1 - p, 'look-after-' + op, look(1 - p)))      # the OTHER process looks at once
+        for x in X: x.call('C_Finalize'); x.close()
+        X = []
+    finally:
+        for x in X: x.kill()
+    return tr
+def multi_process_programs(ctx):
+    for i in range(ctx.q(6, 40)):
+        seed = ctx.seed * 7919 + i; trs = {}
+        try:
+            for cfg, be in CONFIGS: trs[(cfg, be)] = mp_transcript(ctx, cfg, be, seed, ctx.q(36, 60))
+        except (AssertionError, Died, Hang) as e: ctx.inconc(f'two-process program {seed} could not be run: {e!r}'[:300]); continue
+        ref = trs[CONFIGS[0]]
+        for c in CONFIGS[1:]:
+            if trs[c] != ref:
+                k = next((j for j, (a, b) in enumerate(zip(ref, trs[c])) if a != b), min(len(ref), len(trs[c])))
+                a = ref[k] if k < len(ref) else None; b = trs[c][k] if k < len(trs[c]) else None; dim = 'file~db' if c[1] != CONFIGS[0][1] and c[0] == CONFIGS[0][0] else 'openssl~botan' if c[1] == CONFIGS[0][1] else 'openssl/file~botan/db'
+                ctx.violation(f'two-process-program|{(a or b)[2]}|{dim}|differ', 'the same program run by two processes sharing the token gives different answers depending on the configuration',
+                              {'seed': seed, 'step': k, CONFIGS[0][0] + '/' + CONFIGS[0][1]: clip(a, 400), c[0] + '/' + c[1]: clip(b, 400), 'before': [clip(e, 120) for e in ref[max(0, k - 4):k]]}); break
+        ctx.case(('two-process-program', len(ref) // 20), sample={'two_process_program': [clip(e, 100) for e in ref[:5]], 'seed': seed} if i == 0 else None, n=len(ref))
+        ctx.extra['two_process_programs'] = ctx.extra.get('two_process_programs', 0) + 1
+
 def run(ctx):
     ctx.rule = ('one program = a seeded sequence of units (object management: create/copy/set/destroy/find/get-attribute on all classes; crypto: digests, AES/DES3 modes, HMAC/CMAC, RSA/ECDSA/EdDSA/DSA sign+verify, '
                 'RSA encryption, wrap/unwrap, derive, key generation; every unit in one of the size-query / small-buffer / one-shot / multi-part shapes) executed in lock-step on OpenSSL/file, OpenSSL/db, Botan/file, Botan/db '
                 'holding the same imported keys; one evaluation = one compared item (return codes of a step, an output, an attribute); distinct = (entry point, mechanism or attribute class) pairs compared; '
-                'randomised outputs are cross-fed to all four configurations')
+                'randomised outputs are cross-fed to all four configurations; plus seeded programs run by TWO processes sharing one token (create / destroy / set / search-and-read-everything, the other process looking after every change), whose transcripts must be the same on the four configurations')
     ctx.need('asan', 'botan'); nprog = ctx.q(150, 5000); ncalls = 40
     if os.environ.get('C20_SCALE'): nprog = max(4, int(nprog * float(os.environ['C20_SCALE'])))
     env = dict(paths=ctx.paths, hdr=ctx.paths['asan']['hdr'], scratch=ctx.scratch, ncalls=ncalls, ck=ctx.ck); golden = []; infos = []
@@ -870,6 +954,7 @@ def run(ctx):
     if not ctx.replay: jobs.append(dict(env=env, sweep_seed=ctx.seed, directed=['nested_restart']))
     random.Random(ctx.seed).shuffle(jobs)
     for part in pmap(worker, jobs, ctx.nproc): ctx.merge(part)
+    if not ctx.replay: multi_process_programs(ctx)
     d = {k[5:]: v for k, v in ctx.extra.items() if k.startswith('unit:')}
     for k in list(ctx.extra):
         if k.startswith('unit:'): del ctx.extra[k]
